@@ -111,6 +111,15 @@ def _est_configs():
 
         return SklearnRegressor(SGDRegressor(warm_start=True, max_iter=3, tol=None, random_state=0), random_state=0), {}
 
+    def gnb_prefit():
+        from sklearn.naive_bayes import GaussianNB
+
+        from skactiveml.classifier import SklearnClassifier
+
+        est = GaussianNB().fit([[0.0], [1.0], [5.0]], [0, 1, 2])  # an already trained estimator handed to the wrapper: the caller's object
+        return SklearnClassifier(est, classes=[0, 1, 2], random_state=0), {"estimator (already fitted, caller-owned)": est}
+
+    out.append(("SklearnClassifier[GaussianNB,prefitted]", "clf", gnb_prefit, dict(partial=True)))
     # estimators whose own fit is NOT history-free (warm start): only the wrapper's fresh copy makes fit history-free
     out.append(("SklearnClassifier[SGD,warm_start]", "clf", sgd_warm, dict(partial=True)))
     out.append(("SklearnRegressor[SGD,warm_start]", "reg", sgdr_warm, dict(partial=True)))
@@ -135,6 +144,8 @@ def _est_configs():
 
 def param_changes(name):
     """set_params menus (the only legitimate way besides the constructor to change get_params)"""
+    if "prefitted" in name:
+        return []  # nested set_params would legitimately change the caller-owned estimator that this subject watches
     if name.startswith("ParzenWindowClassifier"):
         return [{"n_neighbors": 1}, {"metric_dict": {"gamma": 2.0}}]
     if name.startswith("SlidingWindowClassifier"):
@@ -400,6 +411,25 @@ def check_stream(acc, subj):
     with warnings.catch_warnings():
         warnings.simplefilter("ignore")
         r = G.bfs(subj, 0.5, "real", 2, 3, 600, UV, on_state, on_transition, seed=0, max_tapes=50)
+        # a budget changed by set_params on a used object must be the budget of the next call (nothing resolved earlier may survive)
+        sym = ("h",) if subj.kind == "manager" else ("a",)
+        for new_budget in (0.25, 1.0):
+            o = G.fresh(subj, 0.5, "real", 0)
+            try:
+                i0, u0 = G.do_query(subj, o, sym, UV)
+                G.do_update(subj, o, sym, i0, u0, UV)
+                o.set_params(budget=new_budget)
+                i1, u1 = G.do_query(subj, o, sym, UV)
+                G.do_update(subj, o, sym, i1, u1, UV)
+            except Exception:
+                continue
+            acc.transitions += 4
+            acc.case((subj.name, "set_params(budget)", new_budget))
+            got = getattr(o, "budget_", None)
+            if got is not None and float(got) != float(new_budget):
+                acc.violation(subj.name, "resolved_budget_ignores_set_params", "after set_params(budget=%s) and one query/update the object still works with "
+                              "budget_=%r" % (new_budget, got), dict(cfg, new_budget=new_budget), {"last_op": "set_params"},
+                              {"what": "stream", "name": subj.name, "history": [], "set_budget": new_budget}, 2)
     acc.states += r["states"]
 
 
